@@ -315,18 +315,41 @@ def run(tier):
         for _ in range(200 if big else 40):
             n, seed = r.randint(2, 7), r.randint(0, 10 ** 6)
             keyed = r.random() < 0.4
-            kind = r.choice(['reshuffle', 'reshuffle', 'local', 'reshuffle_local'])
+            kind = r.choice(['reshuffle', 'reshuffle', 'local', 'reshuffle_local', 'lazyapply', 'lazyapply_once', 'reshuffle_map', 'reshuffle_catch', 'reshuffle_prefetch1'])
 
             def mk():
                 d = ld.new({f'k{i}': i for i in range(n)} if keyed else list(range(n)))
                 g = np.random.RandomState(seed)
                 if kind == 'reshuffle': return d.shuffle(True, rng=g)
                 if kind == 'local': return d.shuffle(True, rng=g, buffer_size=3)
+                if kind == 'lazyapply': return d.apply(ApplyShuffle(g), lazy=True)
+                if kind == 'lazyapply_once': return d.apply(lambda x, g=g: x.shuffle(False, rng=g), lazy=True)
+                if kind == 'reshuffle_map': return d.shuffle(True, rng=g).map(add1)
+                if kind == 'reshuffle_catch': return d.shuffle(True, rng=g).catch()
+                if kind == 'reshuffle_prefetch1': return d.shuffle(True, rng=g).prefetch(1, 2)
                 return d.shuffle(True, rng=g).shuffle(True, rng=np.random.RandomState(seed + 1), buffer_size=2)
             a, b = mk(), mk()
-            probe = r.choice(['items', 'len', 'keys', 'repr', 'flags', 'getbad'])
+            probe = r.choice(['items', 'len', 'keys', 'repr', 'flags', 'getbad', 'iter_only', 'iter_only', 'late_first'])
+            if probe == 'late_first':
+                # two iterators are created, the one created LAST is advanced and finished first: an epoch draws its order when it
+                # starts to deliver, not when the iterator object is made - a twin iterated back to back gives the same two orders
+                try:
+                    i1, i2 = iter(b), iter(b)
+                    second = [int(x) for x in i2]
+                    first = [int(x) for x in i1]
+                    ea = [[int(x) for x in a] for _e in range(2)]
+                    if [second, first] != ea:
+                        failures.append(dict(kind='program', summary=f'{kind} of range({n}) (seed {seed}): two iterators created up front, the later one consumed first, give {[second, first]}; '
+                                             f'a twin iterated back to back gives {ea} (an order is drawn when an epoch starts to deliver)', config=dict(n=n, seed=seed, kind=kind, probe=probe, keyed=keyed)))
+                except Exception as e:
+                    failures.append(dict(kind='program', summary=f'{kind} of range({n}): staggered iterators raised {type(e).__name__}: {e}'[:300], config=dict(n=n, seed=seed, kind=kind, probe=probe)))
+                continue
             try:
-                if probe == 'items':
+                if probe == 'iter_only':
+                    iter(b)                 # an iterator that is made and never advanced
+                    it_unused = iter(b)
+                    del it_unused
+                elif probe == 'items':
                     if keyed:
                         continue
                     list(b.items())
